@@ -69,7 +69,7 @@ func report(c *core.Ctx, fam string, corpus *pipe.Corpus) {
 				if i := strings.Index(n, " "); i >= 0 {
 					feat = n[i+1:]
 				}
-				c.Violation(fmt.Sprintf("C01 uncompilable diag=%q feat=[%s]", first(diags), feat),
+				c.Violation(fmt.Sprintf("C01 uncompilable class=%s feat=[%s]", diagClasses(diags), feat),
 					fmt.Sprintf("goa accepted the design but the code generated for method %s does not compile: %s", n, strings.Join(diags, " | ")), cs2, nil)
 			}
 			if len(d.BuildDiags) > 0 {
@@ -91,10 +91,9 @@ func report(c *core.Ctx, fam string, corpus *pipe.Corpus) {
 				}
 				var ds []string
 				for _, l := range d.BuildDiags {
-					ds = append(ds, abstract(stripPos(l)))
+					ds = append(ds, stripPos(strings.TrimSpace(l)))
 				}
-				sort.Strings(ds)
-				c.Violation(fmt.Sprintf("C01 uncompilable-design diag=%q %s", ds[0], feat),
+				c.Violation(fmt.Sprintf("C01 uncompilable-design class=%s %s", diagClasses(ds), feat),
 					fmt.Sprintf("generated code of design %s does not compile: %s", key, strings.Join(d.BuildDiags, " | ")), cs, nil)
 			}
 		}
@@ -115,6 +114,33 @@ func featString(f map[string]string) string {
 		parts = append(parts, k+"="+f[k])
 	}
 	return strings.Join(parts, " ")
+}
+
+// diagClasses abstracts a set of compiler diagnostics into the sorted set of their classes; the
+// set does not depend on the order in which the compiler reports them.
+func diagClasses(diags []string) string {
+	set := map[string]bool{}
+	for _, d := range diags {
+		switch {
+		case strings.Contains(d, "redeclared") || strings.Contains(d, "other declaration") || strings.Contains(d, "duplicate") || strings.Contains(d, "field and method with the same name"):
+			set["redeclared"] = true
+		case strings.Contains(d, "declared and not used") || strings.Contains(d, "no new variables"):
+			set["unused-or-shadowed"] = true
+		case strings.Contains(d, "undefined") || strings.Contains(d, "has no field or method"):
+			set["undefined"] = true
+		case strings.Contains(d, "cannot use") || strings.Contains(d, "mismatched types") || strings.Contains(d, "invalid operation") || strings.Contains(d, "cannot convert") || strings.Contains(d, "not enough arguments") || strings.Contains(d, "too many arguments") || strings.Contains(d, "assignment mismatch"):
+			set["type-mismatch"] = true
+		case strings.Contains(d, "too many errors"):
+		default:
+			set["other"] = true
+		}
+	}
+	var l []string
+	for k := range set {
+		l = append(l, k)
+	}
+	sort.Strings(l)
+	return strings.Join(l, "+")
 }
 
 func first(d []string) string {
